@@ -260,12 +260,37 @@ def rule_r2(chk):
     # resolver: non-strict filtering keeps only names present; callable/str/None forms
     rs = meths["_resolve_source_target_names"]
     chk.saw(m, "Databox._resolve_source_target_names")
-    src = squash(rs)
-    ok = ("ifsource_namesisNone:source_names=context_names" in src.replace("\n", "") and "ifisinstance(source_names,str):source_names=(source_names,)" in src.replace("\n", "")
-          and "iftarget_namesisNone:target_names=source_names" in src.replace("\n", "")
-          and "(s,t)fors,tinzip(source_names,target_names)ifsincontext_names" in src and "return(source_names,target_names,context_names)" in src)
-    chk.ob("C19-R2", "databoxes.main.Databox._resolve_source_target_names", ok,
-           "None -> all names, str -> singleton, callable -> filter/map, non-strict -> pairs whose source exists", m.loc(rs))
+    from .. import fin
+    ctx = ("a", "b", "c", "d")
+    up = lambda n: n.upper()
+    cases = [  # (source, target, strict) -> (sources, targets)
+        ((None, None, False), (ctx, ctx)),
+        (("a", "Z", False), (("a",), ("Z",))),
+        ((("a", "x", "c"), ("A", "X", "C"), False), (("a", "c"), ("A", "C"))),
+        ((("x", "b"), ("X", "B"), False), (("b",), ("B",))),
+        ((("x", "y"), ("X", "Y"), False), ((), ())),
+        ((("a", "x", "c"), ("A", "X", "C"), True), (("a", "x", "c"), ("A", "X", "C"))),
+        (((lambda n: n in "bd"), None, False), (("b", "d"), ("b", "d"))),
+        ((("a", "x", "c"), up, False), (("a", "c"), ("A", "C"))),
+        ((None, up, False), (ctx, ("A", "B", "C", "D"))),
+    ]
+    ps = params(rs)
+    env = {"str": str}
+    funcs = {"self.get_names": lambda: ctx, "isinstance": isinstance, "callable": callable}
+    try:
+        bad = None
+        for (src_, tgt_, strict_), want in cases:
+            got = fin.run_function(rs, {ps[1]: src_, ps[2]: tgt_, ps[3]: strict_}, funcs=funcs, env=env)
+            got2 = (tuple(got[0]), tuple(got[1]))
+            if got2 != want or tuple(got[2]) != ctx:
+                bad = (src_ if not callable(src_) else "<predicate>", tgt_ if not callable(tgt_) else "<function>", strict_, got2, want)
+                break
+        chk.ob("C19-R2", "databoxes.main.Databox._resolve_source_target_names", bad is None,
+               f"{len(cases)} finite cases (None / str / list / predicate sources, None / str / list / function targets, strict on/off, missing "
+               "names first, in the middle, all): sources and targets stay paired and only pairs whose source exists survive non-strict mode"
+               if bad is None else f"source={bad[0]}, target={bad[1]}, strict={bad[2]} over names {ctx}: got {bad[3]}, want {bad[4]} (pairs misaligned or dropped)", m.loc(rs))
+    except fin.NotFinite as ex:
+        chk.undecided("C19-R2", "databoxes.main.Databox._resolve_source_target_names", f"not evaluable: {ex}", m.loc(rs))
     # rename/remove/keep act on exactly the resolved names
     for name, want in (("rename", "fors,tinzip(source_names,target_names):self[t]=self.pop(s)"), ("remove", "forninremove_names:delself[n]"),
                        ("keep", "remove_names=set(self.keys())-set(keep_names)")):
